@@ -349,9 +349,29 @@ def r193(ctx):
             cmps.setdefault(type(n.ops[0]).__name__, []).append(n.comparators[0].value)
         if isinstance(n, ast.Compare) and isinstance(n.left, ast.Call) and last_name(n.left) == "len" and n.left.args and isinstance(n.left.args[0], ast.Name) and n.left.args[0].id in toks_ and isinstance(n.comparators[0], ast.Constant):
             cmps.setdefault("ncols", []).append(n.comparators[0].value)
+    # column counts accepted for a box-bounds line: orthogonal dumps have 2 columns, triclinic ones 3 (xy xz yz)
+    ncol_names = {n.targets[0].id for n in walk_local(of) if isinstance(n, ast.Assign) and isinstance(n.targets[0], ast.Name) and isinstance(n.value, ast.Call) and last_name(n.value) == "len" and n.value.args and isinstance(n.value.args[0], ast.Name) and n.value.args[0].id in toks_}
+
+    def _is_ncols(e):
+        return (isinstance(e, ast.Name) and e.id in ncol_names) or (isinstance(e, ast.Call) and last_name(e) == "len" and e.args and isinstance(e.args[0], ast.Name) and e.args[0].id in toks_)
+
+    box_counts = None
+    for n in walk_local(of):
+        if isinstance(n, ast.Compare) and len(n.ops) == 1 and _is_ncols(n.left):
+            c0 = n.comparators[0]
+            if isinstance(n.ops[0], (ast.In, ast.NotIn)) and isinstance(c0, (ast.List, ast.Tuple, ast.Set)) and all(isinstance(e_, ast.Constant) and isinstance(e_.value, int) for e_ in c0.elts):
+                box_counts = (sorted(e_.value for e_ in c0.elts), n)
+            elif isinstance(n.ops[0], (ast.Eq, ast.NotEq)) and isinstance(c0, ast.Constant) and c0.value in (2, 3):
+                box_counts = ([c0.value], n)
+    if box_counts is None:
+        raise AnalysisError("R-19.3: the column-count test of the box-bounds lines of lammpstrj_reader was not found (cannot decide)")
+    if box_counts[0] == [2, 3]:
+        ctx.ok(rid, box_counts[1], "lammpstrj: a box-bounds line is complete with 2 (orthogonal) or 3 (triclinic: tilt factor) columns")
+    else:
+        ctx.bad(rid, box_counts[1], f"lammpstrj: the on-the-fly reader accepts a box-bounds line only with {box_counts[0]} column(s): the writer (and LAMMPS itself, `ITEM: BOX BOUNDS xy xz yz`) produces 2 or 3 - complete lines of the other layout are taken for partial writes, the reader returns early at every poll and never delivers a frame", construct="lammpstrj_reader: box line column counts " + str(box_counts[0]))
     cols = [ast.unparse(n.slice) for n in walk_local(of) if isinstance(n, ast.Subscript) and isinstance(n.value, ast.Name) and n.value.id in toks_ and isinstance(n.slice, ast.Slice)]
     natoms_line = [n.comparators[0].value for n in walk_local(of) if isinstance(n, ast.Compare) and isinstance(n.left, ast.Name) and n.left.id == idxv and isinstance(n.ops[0], ast.Eq) and isinstance(n.comparators[0], ast.Constant)]
-    ok = blk2 == H and sorted(cmps.get("GtE", [])) == [5, H] and cmps.get("LtE") == [7] and cmps.get("ncols") == [9] and cols == ["2:8"] and 3 in natoms_line
+    ok = blk2 == H and sorted(cmps.get("GtE", [])) == [5, H] and cmps.get("LtE") == [7] and [v for v in cmps.get("ncols", []) if v not in (2, 3)] == [9] and cols == ["2:8"] and 3 in natoms_line
     if ok:
         ctx.ok(rid, of, f"lammpstrj: on-the-fly reader block = N + {blk2}, atom count on line 3, box lines 5..7, atoms from {H}, 9 columns, data = spl[2:8]")
     else:
@@ -1077,6 +1097,40 @@ def r1916(ctx):
             raise AnalysisError(f"R-19.16: the occurrence test `{short(e, 40)}` of write_for_run is not one of the modelled forms (cannot decide)")
 
 
+def r1917(ctx):
+    """read_cp2k_input upper-cases section titles; the terminator test must be case-insensitive as
+    well (`&end md`, `&End` are legal CP2K): a comparison of a raw token with a cased literal
+    ("END") in the function that normalises its sibling tokens is reported."""
+    rid = "R-19.17"
+    f = ctx.tree.func(CP2K, "read_cp2k_input")
+    normal = [c for c in walk_local(f) if isinstance(c, ast.Call) and isinstance(c.func, ast.Attribute) and c.func.attr in ("upper", "lower", "casefold") and not c.args]
+    if not normal:
+        raise AnalysisError("R-19.17: read_cp2k_input no longer normalises the case of any token (cannot decide)")
+    bases = {ast.unparse(c.func.value).split("[")[0] for c in normal}
+    n = 0
+    for x in walk_local(f):
+        if isinstance(x, ast.Compare) and len(x.ops) == 1 and isinstance(x.ops[0], (ast.Eq, ast.NotEq, ast.In, ast.NotIn)):
+            for side, other in ((x.left, x.comparators[0]), (x.comparators[0], x.left)):
+                lits = [other] if isinstance(other, ast.Constant) else (list(other.elts) if isinstance(other, (ast.List, ast.Tuple, ast.Set)) else [])
+                if not lits or not all(isinstance(l_, ast.Constant) and isinstance(l_.value, str) and any(ch.isalpha() for ch in l_.value) for l_ in lits):
+                    continue
+                raw = not any(isinstance(c, ast.Call) and isinstance(c.func, ast.Attribute) and c.func.attr in ("upper", "lower", "casefold") for c in ast.walk(side))
+                if ast.unparse(side).split("[")[0].split(".")[0] in {b.split(".")[0] for b in bases} or isinstance(side, (ast.Subscript, ast.Name)):
+                    n += 1
+                    if raw and isinstance(side, (ast.Subscript, ast.Name, ast.Attribute)):
+                        ctx.bad(rid, x, f"read_cp2k_input compares the raw token `{short(side, 30)}` with {[l_.value for l_ in lits]}: CP2K keywords are case-insensitive and the function normalises its other tokens, so `&end md` / `&End` is not recognised as a terminator - it is parsed as a nested section END, the section tree is wrong and update_cp2k_input appends duplicate sections instead of editing the requested ones", construct=f"read_cp2k_input: raw comparison {short(x, 50)}")
+                    else:
+                        ctx.ok(rid, x, f"`{short(x, 50)}` compares a case-normalised token")
+        if isinstance(x, ast.Call) and isinstance(x.func, ast.Attribute) and x.func.attr in ("startswith", "endswith") and x.args and isinstance(x.args[0], ast.Constant) and isinstance(x.args[0].value, str) and any(ch.isalpha() for ch in x.args[0].value):
+            n += 1
+            if any(isinstance(c, ast.Call) and isinstance(c.func, ast.Attribute) and c.func.attr in ("upper", "lower", "casefold") for c in ast.walk(x.func.value)):
+                ctx.ok(rid, x, f"`{short(x, 50)}` tests a case-normalised token")
+            else:
+                ctx.bad(rid, x, f"read_cp2k_input tests the raw text `{short(x, 50)}` against a cased keyword: CP2K keywords are case-insensitive", construct=f"read_cp2k_input: raw test {short(x, 50)}")
+    if n == 0:
+        raise AnalysisError("R-19.17: no keyword comparison found in read_cp2k_input (cannot decide)")
+
+
 def run(ctx):
     ctx.rule("R-19.6", "the flattened box matrix has the element order of the g96 BOX record (folded from the source, comprehensions included)", floor=1)
     ctx.rule("R-19.10", "input-template editing: writer and reader split `key <delim> value` with the same regular expression, whose key group is lazy (regex syntax trees compared)", floor=3)
@@ -1095,6 +1149,8 @@ def run(ctx):
     ctx.attempt(r1914, ctx)
     ctx.rule("R-19.16", "LAMMPS template editing is local: a variable is substituted only when it is a whole word of the template line (tokens taken before any substitution)", floor=1)
     ctx.attempt(r1916, ctx)
+    ctx.rule("R-19.17", "CP2K keywords are case-insensitive: the input reader normalises the case of every keyword it compares (section titles and the &END terminator alike) - tokens that are case-normalised for one decision are not compared raw for another", floor=1)
+    ctx.attempt(r1917, ctx)
     ctx.rule("R-19.15", "TRR frames decode for both byte orders: the byte order is exchanged exactly when the magic number differs as read (shared with C13 R-13.10)", floor=2)
     from .c13 import trr_byte_order
     ctx.attempt(trr_byte_order, ctx, "R-19.15", "")
@@ -1117,6 +1173,8 @@ def run(ctx):
 
 
 VARIANTS = [
+    B("c19-cp2k-terminator-case-sensitive", CP2K, 'if lstrip[1:].lower().startswith("end"):', 'if strip[0] == "END":', "R-19.17", control=True, why="seeded C19_m"),
+    K("c19-keep-cp2k-terminator-upper", CP2K, 'if lstrip[1:].lower().startswith("end"):', 'if lstrip[1:].upper().startswith("END"):'),
     B("c19-lammps-placeholder-substring-test", LAMMPS, "                    if var in spl:", "                    if var in line:", "R-19.16", control=True, why="seeded C19_l"),
     K("c19-keep-lammps-placeholder-tokens-renamed", LAMMPS, "                spl = line.split()\n", "                words = line.split()\n", also=[(LAMMPS, "                    if var in spl:", "                    if var in words:")]),
     B("c19-trr-coord-newbyteorder-discarded", GROMACS, '    if double:\n        fmt = f"{endian}{natoms * _DIM}d"\n    else:\n        fmt = f"{endian}{natoms * _DIM}f"\n    read = read_struct_buff(fileh, fmt)\n    mat = np.array(read)\n    mat.shape = (natoms, _DIM)', '    dtype = np.dtype(">f8" if double else ">f4")\n    if endian != ">":\n        dtype.newbyteorder(endian)\n    buff = fileh.read(natoms * _DIM * dtype.itemsize)\n    if not buff:\n        raise EOFError\n    mat = np.frombuffer(buff, dtype=dtype).astype(np.float64)\n    mat.shape = (natoms, _DIM)', "R-19.4", control=True, why="seeded C19_k"),
